@@ -226,6 +226,9 @@ pub struct WorkerOut {
     pub done: u64,
     #[serde(default)]
     pub digests: Vec<(u64, u64)>,
+    /// digest of the complete result of every run (only with VERIF_RDIGEST=1: determinism self-test)
+    #[serde(default)]
+    pub rdigests: Vec<(u64, u64)>,
     /// the worker stopped early (a case hung): restart from this run index
     pub resume: Option<u64>,
 }
@@ -237,6 +240,7 @@ pub fn worker_main(def: &'static PropertyDef, tier: Tier, seed: u64, workers: u6
     let cur = out.with_extension("cur");
     let deadline = std::env::var("VERIF_WORKER_DEADLINE_S").ok().and_then(|s| s.parse::<u64>().ok());
     let t0 = Instant::now();
+    let rdigest = std::env::var("VERIF_RDIGEST").is_ok();
     let mut run = index.max(start);
     let mut seen_sigs: BTreeMap<String, u32> = BTreeMap::new();
     while run < total {
@@ -257,6 +261,11 @@ pub fn worker_main(def: &'static PropertyDef, tier: Tier, seed: u64, workers: u6
             let timed_out = r.timed_out;
             if r.digest != 0 {
                 wo.digests.push((run, r.digest));
+            }
+            if rdigest {
+                let mut c = r.clone();
+                c.stats.samples.clear();
+                wo.rdigests.push((run, fnv(&serde_json::to_string(&c).unwrap_or_default())));
             }
             wo.stats.inc("evaluations");
             wo.stats.inc(&format!("programs.{}", case.program.kind));
@@ -350,6 +359,7 @@ pub struct BatchResult {
     pub failures: Vec<(Case, Violation)>,
     pub wall_s: f64,
     pub digests: BTreeMap<u64, u64>,
+    pub rdigests: BTreeMap<u64, u64>,
 }
 
 pub fn run_batch(def: &'static PropertyDef, tier: Tier, seed: u64, workers: u64) -> BatchResult {
@@ -383,6 +393,7 @@ pub fn run_batch(def: &'static PropertyDef, tier: Tier, seed: u64, workers: u64)
     let mut stats = Stats::default();
     let mut failures = Vec::new();
     let mut digests: BTreeMap<u64, u64> = BTreeMap::new();
+    let mut rdigests: BTreeMap<u64, u64> = BTreeMap::new();
     while let Some((k, out, mut child)) = children.pop() {
         let st = child.wait().expect("wait");
         if st.success() && out.exists() {
@@ -390,6 +401,7 @@ pub fn run_batch(def: &'static PropertyDef, tier: Tier, seed: u64, workers: u64)
             stats.merge(wo.stats);
             failures.extend(wo.failures);
             digests.extend(wo.digests);
+            rdigests.extend(wo.rdigests);
             if let Some(next) = wo.resume {
                 children.push(spawn(k, next));
             }
@@ -418,7 +430,7 @@ pub fn run_batch(def: &'static PropertyDef, tier: Tier, seed: u64, workers: u64)
     }
     let _ = std::fs::remove_dir_all(&work);
     failures.sort_by_key(|f| f.0.run);
-    BatchResult { stats, failures, wall_s: t0.elapsed().as_secs_f64(), digests }
+    BatchResult { stats, failures, wall_s: t0.elapsed().as_secs_f64(), digests, rdigests }
 }
 
 /// Execute a case in a fresh child process. Returns the violations it reports
@@ -953,7 +965,7 @@ pub fn check_main(def: &'static PropertyDef, tier: Tier, seed: u64, workers: u64
 
 impl Clone for BatchResult {
     fn clone(&self) -> Self {
-        BatchResult { stats: self.stats.clone(), failures: self.failures.clone(), wall_s: self.wall_s, digests: self.digests.clone() }
+        BatchResult { stats: self.stats.clone(), failures: self.failures.clone(), wall_s: self.wall_s, digests: self.digests.clone(), rdigests: self.rdigests.clone() }
     }
 }
 
@@ -980,4 +992,47 @@ fn sub_main(def: &'static PropertyDef, tier: Tier, seed: u64, workers: u64) -> i
         println!("VIOLATION property={} replay={}", def.id, p.display());
     }
     if rep.new_violations.is_empty() { 0 } else { 1 }
+}
+
+/// Determinism self-test: the complete result of every run must be identical across
+/// repeated batches in fresh worker processes and across worker counts.
+pub fn selftest_main(ids: &[String], runs: u64, seed: u64) -> i32 {
+    // SAFETY: single-threaded at this point; the variables are read by the worker children
+    unsafe {
+        std::env::set_var("VERIF_RUNS", runs.to_string());
+        std::env::set_var("VERIF_RDIGEST", "1");
+        std::env::set_var("VERIF_OUT", std::env::temp_dir().join(format!("inksim-selftest-{}", std::process::id())));
+    }
+    let mut bad = 0;
+    let mut total = 0u64;
+    for def in crate::props::all() {
+        if !ids.is_empty() && !ids.iter().any(|i| i == def.id) {
+            continue;
+        }
+        let a = run_batch(def, Tier::Quick, seed, 16);
+        let b = run_batch(def, Tier::Quick, seed, 5);
+        let c = run_batch(def, Tier::Quick, seed, 16);
+        let mut diffs = Vec::new();
+        for (run, d) in &a.rdigests {
+            total += 1;
+            if b.rdigests.get(run) != Some(d) || c.rdigests.get(run) != Some(d) {
+                diffs.push(*run);
+            }
+        }
+        if a.rdigests.len() != b.rdigests.len() || a.rdigests.len() != c.rdigests.len() {
+            diffs.push(u64::MAX);
+        }
+        println!(
+            "{}: {} runs x 3 batches (16, 5, 16 workers): {}",
+            def.id,
+            a.rdigests.len(),
+            if diffs.is_empty() { "identical".to_string() } else { format!("DIFFERENT at runs {:?}", &diffs[..diffs.len().min(8)]) }
+        );
+        if !diffs.is_empty() {
+            bad += 1;
+        }
+    }
+    let _ = std::fs::remove_dir_all(out_dir());
+    println!("selftest: {total} runs compared, {bad} properties with differences");
+    if bad == 0 { 0 } else { 1 }
 }
